@@ -182,3 +182,22 @@ M("c20-result-guard-removed", "C20", "C20.ISO", ("src/deep/processor/context/tri
 """))
 R("c20-narrower-but-ok", "C20", (METR, "                except Exception:\n                    deep.logging.exception(\"Metric processor %s failed to process metric %s\", processor,",
                                   "                except BaseException:\n                    deep.logging.exception(\"Metric processor %s failed to process metric %s\", processor,"))
+
+# ------------------------------------------------------------------ C04
+TPC = "src/deep/api/tracepoint/tracepoint_config.py"
+ACX = "src/deep/processor/context/action_context.py"
+M("c04-period-le", "C04", "C04.TABLE", (TRG, "            if time_since_last < self.__fire_period_ns():", "            if time_since_last <= self.__fire_period_ns():"))
+M("c04-count-lt", "C04", "C04.TABLE", (TRG, "if self.fire_count != -1 and self.fire_count <= self.__stats.fire_count:", "if self.fire_count != -1 and self.fire_count < self.__stats.fire_count:"))
+M("c04-unlimited-sentinel", "C04", "C04.TABLE", (TRG, "if self.fire_count != -1 and self.fire_count <= self.__stats.fire_count:", "if self.fire_count != 0 and self.fire_count <= self.__stats.fire_count:"))
+M("c04-window-ignored", "C04", "C04.TABLE", (TRG, "        if not self.__window.in_window(ts):\n            return False\n", ""))
+M("c04-window-end-exclusive-start", "C04", "C04.WINDOW", (TPC, "            return self._start <= ts\n", "            return self._start >= ts\n"))
+M("c04-period-us", "C04", "C04.UNITS", (TRG, "return self.fire_period * 1_000_000", "return self.fire_period * 1_000"))
+M("c04-period-key", "C04", "C04.UNITS", (TRG, "        return self.__get_int(FIRE_PERIOD, 1000)", "        return self.__get_int(FIRE_COUNT, 1000)"))
+M("c04-record-always", "C04", "C04.STATE", (ACX, "        if self.has_triggered():\n            self.location_action.record_triggered(self.trigger_context.ts)", "        self.location_action.record_triggered(self.trigger_context.ts)"))
+M("c04-flag-not-in-finally", "C04", "C04.STATE", (ACX, "        try:\n            return self._process_action()\n        finally:\n            self._triggered = True", "        result = self._process_action()\n        self._triggered = True\n        return result"))
+M("c04-fire-twice", "C04", "C04.UNITS", (TPC, "        self._fire_count += 1\n", "        self._fire_count += 2\n"))
+M("c04-int-no-fallback", "C04", "C04.INT", (TRG, "        try:\n            return int(self.__config.get(name, default_value))\n        except ValueError:\n            return default_value\n\n    def __str__", "        return int(self.__config.get(name, default_value))\n\n    def __str__"))
+M("c04-span-drops-fire-count", "C04", "C04.KEYS", (TRG, "        SPAN: args[SPAN],\n        FIRE_COUNT: args.get(FIRE_COUNT, '1'),\n", "        SPAN: args[SPAN],\n"))
+M("c04-other-clock", "C04", "C04.UNITS", (ACX, "self.location_action.record_triggered(self.trigger_context.ts)", "self.location_action.record_triggered(time.time_ns() // 1000)"), (ACX, "import abc\n", "import abc\nimport time\n"))
+R("c04-refactor-local", "C04", (TRG, "        if self.fire_count != -1 and self.fire_count <= self.__stats.fire_count:\n            return False\n",
+                                "        limit = self.fire_count\n        fired = self.__stats.fire_count\n        if limit != -1 and fired >= limit:\n            return False\n"))
